@@ -36,10 +36,30 @@ def main(argv=None):
     except tlc.TLCError as ex:
         print("MACHINERY-FAILURE property=%s: %s" % (a.pid, ex), file=sys.stderr)
         rc = 2
-    except Exception:
+    except Exception as ex:
         traceback.print_exc()
-        print("MACHINERY-FAILURE property=%s (harness exception)" % a.pid, file=sys.stderr)
-        rc = 2
+        frames = traceback.extract_tb(ex.__traceback__)
+        inner = frames[-1] if frames else None
+        libframes = [f for f in frames if os.sep + "onsager" + os.sep in f.filename]
+        if inner is not None and libframes and (os.sep + "onsager" + os.sep in inner.filename or
+                                                os.sep + "site-packages" + os.sep in inner.filename or
+                                                "numpy" in inner.filename or "scipy" in inner.filename):
+            # raised INSIDE the library (or in numpy/scipy called from it) on an input of the check that is legal and
+            # works on the reference tree: the package failed, not the harness
+            where = libframes[-1]
+            ctx.case("raised-in-library")
+            ctx.violation("raised|%s|%s:%s" % (type(ex).__name__, os.path.basename(where.filename), where.name),
+                          "the package raised %s: %s in %s (%s line %s) while the check was driving it with a legal "
+                          "input" % (type(ex).__name__, ex, where.name, os.path.basename(where.filename), where.lineno),
+                          {"traceback": traceback.format_exc()[-4000:]})
+            try:
+                rc = ctx.finish(getattr(sys.modules.get("vf.drivers." + a.pid.lower()), "LEVEL", "model_checking"))
+            except Exception:      # noqa: BLE001
+                traceback.print_exc()
+                rc = 1
+        else:
+            print("MACHINERY-FAILURE property=%s (harness exception)" % a.pid, file=sys.stderr)
+            rc = 2
     finally:
         tlc.cleanup()
     print("%s tier=%s seed=%d: %s (evaluations=%d, nontrivial=%d, states=%d, traces=%d, %.1fs)" % (
